@@ -19,6 +19,13 @@ func init() {
 		m0, cs := sb.CountPrefixes(a[1].I32(), a[2].I32(), a[3].I32())
 		return L(I32(m0), I32s(cs))
 	}
+	// New(keys).CountPrefixes(s, s+1, m): a range of one key
+	Exec["sigbits.CountPrefixes/single"] = func(a []V) string {
+		sb := sigbits.New(a[0].Strs())
+		st := a[1].I32()
+		m0, cs := sb.CountPrefixes(st, st+1, a[2].I32())
+		return L(I32(m0), I32s(cs))
+	}
 	Register("C16", genC16)
 }
 
@@ -296,6 +303,48 @@ func genC16(g *Gen) {
 		}
 		g.Exhaust = append(g.Exhaust, "CountPrefixes: all 2..4-key subsets of {'',00,a,a00,ab,b,b80} x all sub-ranges [s,e) x m in {1,2,8,9,40}")
 	}
+	// (4a) single-key ranges: every key of every 1..3-key subset of the universe x m in {1,2,9}
+	{
+		uni := c16SortDedup([]string{"", "\x00", "a", "a\x00", "ab", "b", "b\x80"})
+		for mask := 1; mask < 1<<uint(len(uni)); mask++ {
+			var ks []string
+			for i := range uni {
+				if mask>>uint(i)&1 == 1 {
+					ks = append(ks, uni[i])
+				}
+			}
+			if len(ks) > 3 {
+				continue
+			}
+			for s := 0; s < len(ks); s++ {
+				for _, m := range []int{1, 2, 9} {
+					g.Stat("exh-cp-single")
+					key := ""
+					if len(ks) >= 2 && m >= 2 {
+						key = fmt.Sprintf("cp1/s%d/e%d/m%d", c16B2i(s > 0), c16B2i(s+1 < len(ks)), m)
+					}
+					g.Do("sigbits.CountPrefixes/single", L(Strs(ks), Int(s), Int(m)), key)
+				}
+			}
+		}
+		g.Exhaust = append(g.Exhaust, "CountPrefixes/single: all 1..3-key subsets of {'',00,a,a00,ab,b,b80} x every key x m in {1,2,9}")
+	}
+	// (4b) long shared prefixes: every first-difference bit is far above 2^15 (quick) / 2^17 (thorough), so a
+	// too-small initial value of the running minimum or a 16-bit intermediate shows; keys end on / off a chunk edge
+	{
+		plens := []int{4100}
+		if g.Thorough {
+			plens = append(plens, 4096, 20001)
+		}
+		for _, pl := range plens {
+			p := string(g.R.Bytes(pl, []byte{'a', 'b', 0x00}))
+			ks := c16SortDedup([]string{p, p + "\x00", p + "a", p + "a\x00\x00", p + "b"})
+			fdb(ks, "long-prefix")
+			cp(ks, 0, len(ks), 9, "long-prefix")
+			cp(ks, 1, 4, 2, "long-prefix")
+			cp(ks, 2, 5, 40, "long-prefix")
+		}
+	}
 	// (5) structured random key sets: FirstDiffBits on the sorted set and on a shuffled copy,
 	// CountPrefixes on all sub-ranges (small sets) or random sub-ranges x the m list
 	nb := g.N(700, 14000)
@@ -319,6 +368,16 @@ func genC16(g *Gen) {
 				sh = append(sh, sh[g.R.Intn(len(sh))]) // a repeated key
 			}
 			fdb(sh, "rand-fdb-unsorted")
+		}
+		if g.R.Intn(4) == 0 { // a single-key range somewhere in a random set
+			st := g.R.Intn(len(keys))
+			m := g.R.Pick(1, 2, 8, 9, 40, 64, 65)
+			g.Stat("rand-cp-single")
+			key := ""
+			if len(keys) >= 2 && m >= 2 {
+				key = fmt.Sprintf("cp1/s%d/e%d/m%d", c16B2i(st > 0), c16B2i(st+1 < len(keys)), c16Bucket(m, 2, 8, 9, 40, 64))
+			}
+			g.Do("sigbits.CountPrefixes/single", L(Strs(keys), Int(st), Int(m)), key)
 		}
 		if len(keys) < 2 {
 			continue
